@@ -2,6 +2,7 @@ package simrt
 
 import (
 	"fmt"
+	"os"
 	"runtime"
 	"runtime/debug"
 	"sort"
@@ -25,6 +26,16 @@ const (
 func (s Status) String() string {
 	return [...]string{"ok", "deadlock", "panic", "steplimit", "misuse", "diverged", "unsupported"}[s]
 }
+
+// traceFile (debugging aid, VERIF_TRACEFILE=<path>): every scheduling step of every run of this
+// process is appended to it.
+var traceFile = func() *os.File {
+	if p := os.Getenv("VERIF_TRACEFILE"); p != "" {
+		f, _ := os.OpenFile(p, os.O_CREATE|os.O_WRONLY|os.O_APPEND, 0o644)
+		return f
+	}
+	return nil
+}()
 
 // Config of one simulated execution.
 type Config struct {
@@ -390,6 +401,14 @@ func (s *Sched) pick() *G {
 func (s *Sched) record(id int32, site uintptr) {
 	s.res.Choices = append(s.res.Choices, id)
 	s.trace = (s.trace ^ uint64(uint32(id)) ^ uint64(site)<<20) * 1099511628211
+	if traceFile != nil {
+		if id < 0 {
+			fmt.Fprintf(traceFile, "%d t=%dns timer\n", s.step, s.now)
+		} else {
+			g := s.gs[id]
+			fmt.Fprintf(traceFile, "%d g%d(%s) %s %s\n", s.step, id, g.name, g.siteTag, funcName(site))
+		}
+	}
 	if s.log != nil {
 		var e string
 		if id < 0 {
